@@ -2,7 +2,7 @@
 import random
 from .. import history as H
 from ..real import Real
-from ..terms import V, A, C, I, rterm
+from ..terms import V, A, C, I, L, rterm
 
 PROPERTY = 'C07'
 LEVEL = 'exploration'
@@ -69,6 +69,11 @@ def rand_fact(rng, key, ground=True):
     name, n = key
     if n == 0:
         return A(name)
+    if rng.random() < 0.08:
+        # now and then a fact that is not ground: a variable, a shared variable, a list with an open tail
+        fv = [V('Fv'), V('Ft')]
+        pool = CONST + [fv[0], fv[0], L([A('a')], fv[1]), C('f', fv[0]), L([fv[0], A('b')], fv[1])]
+        return C(name, *[rng.choice(pool) for _ in range(n)])
     return C(name, *[rng.choice(CONST) for _ in range(n)])
 
 
